@@ -28,6 +28,7 @@ type Config struct {
 	Thorough     bool
 	Samples      int // validation samples: models of completed paths with their shown values
 	Seed         int64
+	PartI, PartN int
 }
 
 type Event struct {
@@ -107,6 +108,8 @@ type Engine struct {
 	genFiles   []*genFile
 	side       map[string]interface{} // per-path scratch for models
 	stack      []string
+	seeded     bool
+	usedFresh  bool // a stub made a nondeterministic choice on this path
 	doms       map[string]*simpleDom
 	pcSet      map[string]bool
 	storeLog   []string
@@ -165,6 +168,7 @@ func (e *Engine) resetPath(prefix []bool) {
 	e.stack = nil
 	e.doms = map[string]*simpleDom{}
 	e.pcSet = map[string]bool{}
+	e.usedFresh = false
 }
 
 func (e *Engine) obl(id, kind string) *Obligation {
@@ -192,6 +196,16 @@ func decisionsText(d []bool) string {
 func (e *Engine) Explore(fn *ssa.Function) {
 	start := time.Now()
 	e.work = [][]bool{{}}
+	seededLen := 0
+	if e.cfg.PartN > 1 {
+		// partition i of n=2^d: the first d decisions are fixed to the bits of i
+		var bits []bool
+		for n, i := e.cfg.PartN, e.cfg.PartI; n > 1; n, i = n/2, i/2 {
+			bits = append(bits, i%2 == 1)
+		}
+		e.work = [][]bool{bits}
+		seededLen = len(bits)
+	}
 	for len(e.work) > 0 {
 		if e.cfg.MaxPaths > 0 && e.stats.Paths >= e.cfg.MaxPaths {
 			e.stats.Aborted["path-budget"] += len(e.work)
@@ -205,6 +219,7 @@ func (e *Engine) Explore(fn *ssa.Function) {
 		}
 		prefix := e.work[len(e.work)-1]
 		e.work = e.work[:len(e.work)-1]
+		e.seeded = seededLen > 0 && len(prefix) == seededLen && e.stats.Paths == 0
 		e.runPath(fn, prefix)
 	}
 }
@@ -268,8 +283,8 @@ func (e *Engine) runPath(fn *ssa.Function, prefix []bool) {
 // the engine predicts for the harness's Show() calls (translator validation:
 // the driver re-executes the model natively and compares).
 func (e *Engine) maybeSample() {
-	if len(e.samples) >= e.cfg.Samples || len(e.shown) == 0 {
-		return
+	if len(e.samples) >= e.cfg.Samples || len(e.shown) == 0 || e.usedFresh {
+		return // paths through nondeterministic stubs are not comparable with one native run
 	}
 	// spread samples over the exploration: take paths whose index hits a stride
 	stride := 1 + int((e.cfg.Seed%7+7)%7)
@@ -411,8 +426,15 @@ func rawBool(text string) *Term {
 }
 
 func (e *Engine) newString(name string, maxLen int, alphabet string) *Term {
+	return e.newStringN(name, 0, maxLen, alphabet)
+}
+
+func (e *Engine) newStringN(name string, minLen, maxLen int, alphabet string) *Term {
 	t := e.newVar(name, KStr, 0, "string")
 	t.MaxLen = maxLen
+	if minLen == maxLen && minLen > 0 {
+		t.Exact = minLen
+	}
 	cls := `(re.range " " "~")`
 	var al [256]bool
 	if alphabet != "" {
@@ -435,7 +457,7 @@ func (e *Engine) newString(name string, maxLen int, alphabet string) *Term {
 	}
 	t.Alpha = &al
 	c := &Term{Op: "raw", K: KBool, Args: []*Term{t}, MaxLen: -1,
-		text: fmt.Sprintf("(str.in_re %s ((_ re.loop 0 %d) %s))", t.Name, maxLen, cls)}
+		text: fmt.Sprintf("(str.in_re %s ((_ re.loop %d %d) %s))", t.Name, minLen, maxLen, cls)}
 	e.addPC(c)
 	return t
 }
@@ -567,6 +589,7 @@ func decodeFP(raw string, w int) interface{} {
 func (e *Engine) checkObligation(id, kind string, cond *Term, where string) string {
 	o := e.obl(id, kind)
 	o.Checks++
+	cond = e.simp(cond)
 	if cond.Const && cond.BVal {
 		o.Trivial++
 		o.Unsat++
@@ -647,6 +670,11 @@ func (e *Engine) Result(name string, wall time.Duration) *Result {
 		"cmd": strings.Join(e.solver.cmdline, " "), "queries": e.solver.Queries, "sat": e.solver.Sat, "unsat": e.solver.Unsat,
 		"unknown": e.solver.Unknown, "errors": e.solver.Errors, "cache_hits": e.solver.CacheHits, "time_s": e.solver.Time.Seconds(),
 	}
+	be := map[string]interface{}{}
+	for _, b := range e.solver.backends {
+		be[b.name] = map[string]interface{}{"queries": b.Queries, "decided": b.Decided, "time_s": b.Time.Seconds()}
+	}
+	r.Solver["backends"] = be
 	r.Config = map[string]interface{}{
 		"max_decisions_per_path": e.cfg.MaxDecisions, "max_call_depth": e.cfg.MaxDepth, "max_steps_per_path": e.cfg.MaxSteps,
 		"max_paths": e.cfg.MaxPaths, "map_iteration_order_symbolic": e.cfg.MapPerm,
